@@ -331,10 +331,12 @@ class GroupBase:
             if all(item == [default] for item in idx_cross_mdls):
                 out_pre.append([default])
                 continue
-            for item in idx_cross_mdls:
-                if item != [default]:
-                    out_pre.append(item)
-                    break
+            found = [item for item in idx_cross_mdls if item != [default]]
+            if allow_all:
+                # collect the matches from all models of the group
+                out_pre.append([idx for item in found for idx in item])
+            else:
+                out_pre.append(found[0])
 
         if allow_all:
             out = out_pre
